@@ -45,8 +45,14 @@ func verifC13_RateLimiter() {
 	if verifBool("hasLimitRefreshPeriod") {
 		p.LimitRefreshPeriod = "P"
 	}
-	spec := &Spec{Policies: []*Policy{p}, DefaultPolicyRef: "p",
-		URLs: []*URLRule{{URLRule: urlrule.URLRule{URL: urlrule.StringMatch{Prefix: "/"}}}}}
+	// cross-references between the sections: defaultPolicyRef and the rule's policyRef are
+	// each absent, the defined policy, or a name nothing defines (all schema-valid strings)
+	refs := []string{"", "p", "zz"}
+	spec := &Spec{Policies: []*Policy{p}, DefaultPolicyRef: refs[verifChoose("defaultPolicyRef", 3)],
+		URLs: []*URLRule{{URLRule: urlrule.URLRule{URL: urlrule.StringMatch{Prefix: "/"}, PolicyRef: refs[verifChoose("url.policyRef", 3)]}}}}
+	if spec.DefaultPolicyRef == "" && spec.URLs[0].PolicyRef == "p" {
+		verifCover("rule-names-its-policy-no-default")
+	}
 	// what validation checks
 	verifAssume(spec.Validate() == nil)
 	for _, u := range spec.URLs {
@@ -54,7 +60,11 @@ func verifC13_RateLimiter() {
 	}
 	rl := &RateLimiter{spec: spec}
 	rl.Init() // a panic here or below is reported as a violation
-	for i := 0; i < 2; i++ {
+	requests := 2
+	if spec.DefaultPolicyRef != "p" || spec.URLs[0].PolicyRef != "" {
+		requests = 1 // the reference variants are about instantiation and the first request
+	}
+	for i := 0; i < requests; i++ {
 		vMono += []int64{0, 1, 10000000, 1000000001}[verifChoose("elapsed", 4)]
 		req := &httpprot.Request{Request: &http.Request{Method: "GET", URL: &url.URL{Path: "/x"}, Header: http.Header{}}}
 		res, _ := vHandle(rl, req)
